@@ -90,7 +90,7 @@ def plan(tier, seed):
     if tier == 'quick':
         nb, per = 16, 60            # 960 configurations
     else:
-        nb, per = 48, 200           # 9600 configurations
+        nb, per = 28, 200           # 5600 configurations (+ 377 enumerated)
     out = [{'id': f'{tier[0]}{k}', 'k': k, 'n': per} for k in range(nb)]
     if tier == 'thorough':
         # complete cross product transform mode x filter x signal x class
@@ -1237,16 +1237,16 @@ def run_batch(batch):
 def finalize(merged, tier):
     q = tier == 'quick'
     common.require_events(merged, {
-        'configs': 600 if q else 8000,
-        'invariant_checks': 1000 if q else 14000,
-        'computed_band_checks': 1000 if q else 14000,
-        'attr_checks': 600 if q else 8000,
-        'interpolate_post': 2000 if q else 40000,
+        'configs': 600 if q else 4500,
+        'invariant_checks': 1000 if q else 8000,
+        'computed_band_checks': 1000 if q else 8000,
+        'attr_checks': 600 if q else 4500,
+        'interpolate_post': 2000 if q else 25000,
         'inband_points': 20000, 'passthrough_points': 20000,
         'extrap_points': 20000, 'above_points': 20000,
         'extrap_shape_checks': 1000,
-        'freq2time_checks': 1000 if q else 20000,
-        'tem_handover_checks': 1000 if q else 20000,
+        'freq2time_checks': 1000 if q else 12000,
+        'tem_handover_checks': 1000 if q else 12000,
         'time_points_compared': 10000,
         'selfcheck_refs': 100})
     if not q:
